@@ -418,7 +418,9 @@ func checkCopyDecoded(c *Ctx) {
 
 // checkProducingLoops: in pkg/filter functions that obtain a limit from decodeLimit and write output inside loops,
 // each write is preceded in the same innermost loop iteration by a comparison involving the limit.
-func checkProducingLoops(c *Ctx) {
+func checkProducingLoops(c *Ctx) { checkProducingLoopsAs(c, "C09.R2") }
+
+func checkProducingLoopsAs(c *Ctx, rule string) {
 	p, r := c.P, c.R
 	n := 0
 	for _, fn := range p.Funcs {
@@ -491,14 +493,14 @@ func checkProducingLoops(c *Ctx) {
 			n++
 			construct := fmt.Sprintf("write#%d", wi+1)
 			if ff.Holds(w, "limit-checked") {
-				r.OK("C09.R2", fid, construct, p.Pos(w.Pos()), "output write preceded in the same loop iteration by a comparison with the decode limit", true)
+				r.OK(rule, fid, construct, p.Pos(w.Pos()), "output write preceded in the same loop iteration by a comparison with the decode limit", true)
 			} else {
-				r.Bad("C09.R2", fid, construct, p.Pos(w.Pos()), "an output byte is written inside a loop without the decode limit having been compared in that iteration: a check done once before the loop lets a single run overshoot the limit (and an equality test is then never hit again)")
+				r.Bad(rule, fid, construct, p.Pos(w.Pos()), "an output byte is written inside a loop without the decode limit having been compared in that iteration: a check done once before the loop lets a single run overshoot the limit (and an equality test is then never hit again)")
 			}
 		}
 	}
 	if n == 0 {
-		r.Bad("C09.R2", "pkg/filter", "anchor:producing-loops", "", "UNRESOLVED-ANCHOR: no producing loop with a decodeLimit found")
+		r.Bad(rule, "pkg/filter", "anchor:producing-loops", "", "UNRESOLVED-ANCHOR: no producing loop with a decodeLimit found")
 	}
 }
 
